@@ -7,10 +7,11 @@ package patch
 // Parsing a patch for the library (C12, C19): the text is parsed and compiled into one file set, which
 // the File keeps for its targets; a patch that does not parse or does not compile is rejected.
 //@ func Parse(patchFileName, src) (f, err)
+//@   requires typing: compileEnvOK()
 //@   at call parse.Parse assert [C12,C19] parsed-under-the-name-the-caller-gave: arg0 == ret("go/token.NewFileSet", 0) && arg1 == patchFileName && arg2 == src
 //@   at call engine.Compile assert [C12] compiled-into-the-same-file-set: arg0 == ret("go/token.NewFileSet", 0) && arg1 == ret("parse.Parse", 0, 0)
 //@   ensures [C19] a-patch-that-does-not-parse-or-compile-is-rejected: ret("parse.Parse", 0, 1) != nil ==> err != nil && f == nil
-//@   ensures [C12] the-file-keeps-the-file-set-and-the-program: err == nil ==> f != nil && f.fset == ret("go/token.NewFileSet", 0)
+//@   ensures [C12] the-file-keeps-the-file-set-and-the-program: err == nil ==> f != nil && f.fset == ret("go/token.NewFileSet", 0) && wfProg(f.prog)
 
 //@ func (f *File) Apply(filename, src) (out, err)
 //@   requires wfProg(f.prog)
